@@ -56,3 +56,126 @@ Proof.
   intros H Hs. unfold step_p, with_pp, with_workq, with_futs, with_calls in Hs; cbn in Hs.
   break_match_hyp Hs; inv Hs; cbn in *; exact H.
 Qed.
+
+Lemma forall_task_app l it : Forall is_task l -> is_task it -> Forall is_task (l ++ [it]).
+Proof. intros H1 H2. apply Forall_app; split; [assumption|constructor; [assumption|constructor]]. Qed.
+
+Lemma in_task_not_end l : Forall is_task l -> ~ In QEnd l.
+Proof. intros H Hin. rewrite Forall_forall in H. exact (H _ Hin). Qed.
+
+(* the feeder's steps; needs Inv2's "phase 1 => to_stop is false" *)
+Lemma inv3_step_f g s s' e : Inv2 g s -> Inv3 g s -> step_f g s = Some (s', e) -> Inv3 g s'.
+Proof.
+  destruct s as [f c p qq wq fu ts rs pu re dr ca]. unfold Inv2, Inv3, clean, srcrel. cbn.
+  intros (_ & _ & _ & HD & _) (HJ & H1 & H2 & HK & HI) Hs.
+  assert (Hts : phase1 c = true -> ts = false) by (intros Hp; apply HD; assumption).
+  assert (Hnot1 : forall o, cp_outcome c = Some o -> phase1 c = false) by (destruct c; cbn; congruence).
+  unfold step_f, f_put, qfull, with_fp, with_q, with_pulled, with_rest, with_dropped, with_futs, with_workq in Hs;
+    cbn in Hs.
+  destruct f; try discriminate Hs; cbn in *;
+    try (destruct (HJ eq_refl) as [done [Hsrc Hlen]]);
+    break_match_hyp Hs; inv Hs; cbn in *;
+    (split; [|split; [|split; [|split]]]).
+  (* conjunct 5: Completed would mean the feeder is already FDone *)
+  all: try (intros Ho; destruct (HI Ho) as (_ & Hf & _); discriminate Hf).
+  (* conjunct 1 *)
+  all: try (intros Hx; discriminate Hx).
+  all: try (intros _; exists done; split; first [assumption | reflexivity]).
+  all: try (intros _; exists (done ++ [x]); rewrite map_app, <- app_assoc, app_length; cbn; split; [exact Hsrc|lia]).
+  (* conjunct 2 *)
+  all: try (intros _ Hx; discriminate Hx).
+  all: try (intros Hp _; specialize (Hts Hp); discriminate Hts).
+  all: try (intros Hp _; rewrite app_nil_r in Hsrc; rewrite Hsrc, datas_map; repeat split; reflexivity).
+  (* conjuncts 3 and 4 when the queue is unchanged *)
+  all: try (intros Hp Hin; exfalso; eapply in_task_not_end; [apply HK; auto|exact Hin]).
+  all: try (intros Hp _; apply HK; auto).
+  (* a task or the exception marker joins the queue *)
+  all: try (intros Hp Hin; exfalso; apply in_app_or in Hin; destruct Hin as [Hin|[Hin|[]]]; [|discriminate Hin];
+            eapply in_task_not_end; [apply HK; auto|exact Hin]).
+  all: try (intros Hp _; apply forall_task_app; [apply HK; auto|exact I]).
+  (* the end marker joins the queue *)
+  all: try (intros Hp _; split; [apply (H1 Hp eq_refl)|split; [reflexivity|exists qq; split; [reflexivity|apply HK; auto]]]).
+Qed.
+
+Lemma task_head_split i q' pre :
+  Task i :: q' = pre ++ [QEnd] -> Forall is_task pre ->
+  exists pre', q' = pre' ++ [QEnd] /\ Forall is_task pre'.
+Proof.
+  destruct pre as [|a pre']; cbn; intros H HF; [discriminate|].
+  injection H as Ha Hq. subst. exists pre'. split; [reflexivity|now inv HF].
+Qed.
+
+Lemma end_head_split q' pre :
+  QEnd :: q' = pre ++ [QEnd] -> Forall is_task pre -> q' = [].
+Proof.
+  destruct pre as [|a pre']; cbn; intros H HF.
+  - now injection H.
+  - injection H as Ha _. subst a. inv HF. contradiction.
+Qed.
+
+Lemma seq_len_eq (l : list nat) n : l = seq 0 n -> length l = n.
+Proof. intros ->. apply seq_length. Qed.
+
+(* the consumer's steps *)
+Lemma inv3_step_c g s s' e : Inv2 g s -> Inv3 g s -> step_c g s = Some (s', e) -> Inv3 g s'.
+Proof.
+  destruct s as [f c p qq wq fu ts rs pu re dr ca]. unfold Inv2, Inv3, clean, srcrel, cidx, fidx. cbn.
+  intros (_ & _ & _ & HD & _ & _ & HG) (HJ & H1 & H2 & HK & HI) Hs.
+  unfold step_c, after_recv, with_cp, with_fp, with_q, with_received, with_dropped, with_stop, with_futs in Hs;
+    cbn in Hs.
+  destruct c; try discriminate Hs; cbn in *;
+    try (destruct (HG eq_refl) as (-> & -> & -> & -> & ->));
+    break_match_hyp Hs; inv Hs; cbn in *;
+    (split; [|split; [|split; [|split]]]).
+  (* conjunct 1: the feeder's side is untouched *)
+  all: try (intros Hf; apply HJ; exact Hf).
+  all: try (intros _; apply HJ; reflexivity).
+  (* conjuncts 2-4 when the consumer has left phase 1 *)
+  all: try (intros Hx; discriminate Hx).
+  (* conjunct 2 *)
+  all: try (intros _ Hf; first [discriminate Hf | apply (H1 eq_refl Hf)]).
+  (* conjunct 5 *)
+  all: try (intros Ho; first [discriminate Ho | exact (HI Ho)]).
+  (* a task was popped *)
+  all: try (intros _ Hin;
+            destruct (H2 eq_refl (or_intror Hin)) as (Hc & Hfd & pre & Hq & Hpre);
+            split; [exact Hc|split; [exact Hfd|]]; eapply task_head_split; eassumption).
+  all: try (intros _ Hf; pose proof (HK eq_refl Hf) as HT; inv HT; assumption).
+  (* conjuncts 3, 4: queue unchanged *)
+  all: try (intros _ Hin; first [contradiction | exact (H2 eq_refl Hin)]).
+  all: try (intros _ Hf; first [apply Forall_nil | exact (HK eq_refl Hf)]).
+  (* the end marker was popped: the iteration completes *)
+  all: try (intros _;
+            destruct (H2 eq_refl (or_introl eq_refl)) as (Hc & Hfd & pre & Hq & Hpre);
+            pose proof (end_head_split _ _ Hq Hpre) as Hl; subst;
+            destruct (HD eq_refl) as (_ & Heq); cbn in Heq; rewrite ?app_nil_r in Heq;
+            apply seq_len_eq in Heq; rewrite map_length in Heq;
+            split; [exact Hc|split; [reflexivity|exact Heq]]).
+Qed.
+
+Definition Inv23 (g : cfg) (s : state) : Prop := Inv2 g s /\ Inv3 g s.
+
+Lemma inv23_step g s l s' e : Inv23 g s -> step g s l = Some (s', e) -> Inv23 g s'.
+Proof.
+  intros [H2 H3] Hs. split; [eapply inv2_step; eauto|].
+  destruct l as [| |j]; cbn in Hs;
+    [eapply inv3_step_f | eapply inv3_step_c | eapply inv3_step_p]; eauto.
+Qed.
+
+Lemma inv23_run g sched : Inv23 g (run step g (init g) sched).
+Proof.
+  apply (inv_run step g (Inv23 g)); [intros; eapply inv23_step; eauto|].
+  split; [apply inv2_init | apply inv3_init].
+Qed.
+
+(* when the iteration completes normally the consumer has received exactly one output per source
+   element, in order, each the outcome of its own input, and the source did not fail *)
+Lemma fifo_complete g sched :
+  let s := run step g (init g) sched in
+  cp s = CDone Completed ->
+  received s = expected_prefix g (length (datas (src g))) /\ src g = map SData (datas (src g)).
+Proof.
+  cbn. intros Hc. destruct (inv23_run g sched) as [(HA & _ & HC & _) (_ & _ & _ & _ & HI)].
+  rewrite Hc in HI. destruct (HI eq_refl) as ((_ & Hp & Hsrc) & _ & Hlen).
+  split; [|exact Hsrc]. rewrite <- Hp, <- Hlen. apply recv_shape; assumption.
+Qed.
